@@ -457,7 +457,7 @@ func k4Discharge(c *kit.Ctx, eng *bounds.Engine, f *ssa.Function, pn *ssa.Panic)
 			n++
 			ok := false
 			for _, ft := range kit.FactsAt(s.Block()) {
-				if call, isCall := ft.Cond.(*ssa.Call); isCall && ft.Pol && strings.HasSuffix(kit.CalleeName(call), "scanner).isRegionScannerClosed") {
+				if closed, isFact := scannerClosedFact(c.P, ft); isFact && closed {
 					ok = true
 				}
 			}
